@@ -23,7 +23,7 @@ RULE = ("A case is one seeded history of transfer/distribute/dispense-with-compo
         "least one liquid operation succeeded.")
 COMPONENTS = {"real": ["Labware/Trough composition tracking", "EvoWorklist/FluentWorklist.transfer/distribute/dispense"],
               "stub": ["user script (seeded generator)", "ledger (exact volumetric mixing model)"]}
-ASSUMPTIONS = ["fractions compared with 1e-9 (quarter regime) / 1e-6 (centi regime) absolute tolerance",
+ASSUMPTIONS = ["fractions compared with 1e-9 (quarter regime) / 1e-6 (centi and milli regimes) absolute tolerance",
                "wells that received liquid of unknown composition are exempt from the mixing and sum clauses only"]
 
 EMPTY = Fraction(1, 10 ** 9)
@@ -372,7 +372,7 @@ class C05Oracle(Oracle):
 class Program:
     def __init__(self, rng, tier):
         self.rng = rng
-        opts = {"regime": rng.choice(["quarter", "quarter", "centi"]), "auto_split": True, "integer_max_volume": True,
+        opts = {"regime": rng.choice(["quarter", "quarter", "centi", "milli"]), "auto_split": True, "integer_max_volume": True,
                 "patterns": ["full", "uniform", "mixed", "mixed", "empty"]}
         if rng.random() < 0.4:
             opts["need_trough"] = True
